@@ -58,6 +58,9 @@ CLAIMS = {
     "C17": ("states: strain arrays whose Gauss points mix, inside one element, zero / +-hydrostatic / +-uniaxial / two equal largest or smallest / pure shear / nearly repeated (gap 1e-14..1e-6) / generic tensors, axis-aligned and rotated, are given to Calc_C, Calc_Sigma_e_pg and Calc_psi_e_pg of all 14 splits (isotropic, transversely isotropic, orthotropic and fully anisotropic laws; plane stress, plane strain, 3-D) and compared with an independent numpy.linalg.eigh decomposition of the tensor each split decomposes: finiteness, sigma+ + sigma- = C:eps, C+ + C- = C, psi+ + psi- = eps:C:eps/2, the split's psi+ / psi- / sigma+ written from the positive parts, P+ v against the eigh positive part. histories: load / unload / reload / compression programs and load-free runs on small meshes (single and mixed element groups) for the three irreversibility solvers x AT1 / AT2 x eight splits; after each Solve + Save_Iter the stored history field (per Gauss point), the driving energy per element and, for the damage-based solvers, the nodal damage are compared with the previous saved step; zero loading keeps the damage at zero",
             "homogeneous materials; nearly repeated principal values held to 1e-6 instead of 1e-9; histories <= 8 load steps on meshes <= ~50 elements; AT1 from the virgin state with the History / HistoryDamage solvers is a recorded known finding (singular damage system)",
             "reference-model oracle (independent eigen-decomposition) on executed split routines + monotonicity trace checker over saved phase-field histories"),
+    "C18": ("laws (NeoHookean, MooneyRivlin, CiarletGeymonat, SaintVenantKirchhoff, HolzapfelOgden with random fibres, an AutoDiff user energy; 2-D plane strain and 3-D): on homogeneous deformations u = (F - I)X of a real mesh (random F, det F in [0.6, 1.8]) central finite differences in the Green-Lagrange strain of the observed W and dWde against Compute_dWde / Compute_d2Wde, major symmetry, twin states (QF - I)X for random rotations, W = 0 and stress = 0 in the reference configuration. operators (PK2, Gonzalez consistent / simplified, TimeQuadrature fixed 1-9 points and adaptive with coefK in {0.5, 1, 1-alpha}, ActiveStress, KelvinVoigt, FollowingPressure, PenaltyContact against an analytic plane) on random displacement pairs of 1-6-element groups of 13 element types: returned tangent against finite differences of the returned residual with the documented scaling, internal force against the finite difference of the element energy, discrete power balance R.du = dW, zero-step consistency of every quadrature rule, C = dR/dv and R = C v. assembly: the Newton matrix coefK K + coefC C + coefM M of the simulation against finite differences of its complete residual for elliptic / newmark / hht / hht_newmark / midpoint / euler_implicit x pointwise / gonzalez / quadrature stresses with viscosity and active stress. dynamics: free motion of unconstrained bodies under midpoint with the gonzalez, simplified-tangent gonzalez, adaptive and fixed quadrature stresses: kinetic + stored energy at every converged step against the initial one",
+            "finite-difference step 1e-6, derivative tolerance 1e-6; meshes of one cell (operators) to ~12 elements (dynamics); 30-120 time steps; energy drift tolerance 1e-8 (1e-7 adaptive quadrature); adaptive rules that hit the documented 33-point cap are not judged; contact only against a plane",
+            "finite-difference and invariance oracles on executed constitutive / operator routines + energy trace checker over simulated free-motion histories"),
 }
 
 
